@@ -38,6 +38,20 @@ def configs(tier, seed):
                 out.append(C03._base(N, dims, 2, [(i + d) % 2 for d in range(D)], agg,
                                      weights=["none", "array", "pair", "scalar"][i % 4], ignore=bool(i % 2),
                                      fmt=["nan", "pair"][i % 2], fact=["nan", "pair"][(i // 2) % 2], K=1, side=side))
+    # three dimensions, the one with an extra axis first, in the middle and last (sub-cube pairing across a product
+    # of three slice lists)
+    for pos in range(3):
+        dims = [[], [], []]
+        dims[pos] = [2]
+        for agg in (("count", "sum") if tier == "quick" else C03.AGGS):
+            i += 1
+            for side in ("ccube", "xcube"):
+                out.append(C03._base(2, dims, 2, [(i + d) % 2 for d in range(3)], agg, weights=["none", "array"][i % 2],
+                                     ignore=bool(i % 2), fmt="nan", fact="nan", K=1, side=side))
+    if tier == "thorough":
+        for dims in ([[2], [2], []], [[2], [], [3]]):
+            for side in ("ccube", "xcube"):
+                out.append(C03._base(2, dims, 2, [0, 1, 0], "count", weights="array", ignore=False, fmt="nan", fact="nan", K=1, side=side))
     return out
 
 
